@@ -123,6 +123,10 @@ def _ops_for(d, full_orderings=True):
     for k in range(1, d):
         for over in itertools.combinations(pops, k):
             ops.append(('marg', over))
+            if len(over) >= 2:
+                ops.append(('marg', tuple(reversed(over))))          # axes may be listed in any order
+                if len(over) >= 3:
+                    ops.append(('marg', (over[1], over[0]) + tuple(over[2:])))
             keep = tuple(q + 1 for q in pops if q not in over)
             ops.append(('filter', keep))
             if len(keep) >= 2:
